@@ -23,6 +23,8 @@ pub fn pool() -> Vec<TlSpec> {
         TlSpec { kfs: vec![kf(0.0, Some(1.0), Some(2), None), kf(1.0, Some(3.0), Some(4), None)], default_easing: 0, timing: t(1.0, 0.0, Rep::Times(0), false) },
         TlSpec { kfs: vec![kf(0.5, Some(-32.0), None, None)], default_easing: 1, timing: t(1.0, 1.0, Rep::Infinite, false) },
         TlSpec { kfs: vec![kf(0.0, None, Some(5), None), kf(1.0, None, Some(505), None)], default_easing: 0, timing: t(0.5, 0.25, Rep::Times(3), true) },
+        // over before time 0 (negative total duration)
+        TlSpec { kfs: vec![kf(0.0, Some(5.0), None, None), kf(1.0, Some(15.0), None, None)], default_easing: 0, timing: t(2.0, -8.0, Rep::None, false) },
         // metadata only (evaluation of the largest repeat count is C20's subject)
         TlSpec { kfs: vec![kf(1.0, Some(9.0), None, None)], default_easing: 0, timing: t(1.0, 0.0, Rep::Times(u32::MAX), false) },
     ]
@@ -70,8 +72,9 @@ fn stub_pool() -> Vec<Stub> {
     let mut tag = 1;
     // incl. cycle durations that differ by one ulp or by less than f32::EPSILON in absolute terms: they do NOT agree
     for cycle in [None, Some(1.0f32), Some(2.0), Some(f32::from_bits(1.0f32.to_bits() + 1)), Some(1.0e-8), Some(5.0e-8)] {
-        for delay in [0.0f32, 0.5, 2.0] {
-            for duration in [1.0f32, 3.0, f32::INFINITY] {
+        // incl. a negative delay and negative totals (an animation that was over before time 0)
+        for delay in [0.0f32, 0.5, 2.0, -8.0] {
+            for duration in [1.0f32, 3.0, f32::INFINITY, -6.0, -2.0] {
                 for repeat in [Repeat::None, Repeat::Times(0), Repeat::Times(3), Repeat::Times(u32::MAX), Repeat::Infinite] {
                     tag += 1;
                     v.push(Stub { cycle, delay, duration, repeat, tag });
@@ -97,7 +100,7 @@ fn check_stub_meta<T: Timeline<Target = P>>(m: &MergedTimeline<T>, leaves: &[&St
     if m.delay().to_bits() != want_delay.to_bits() {
         sink.add(&format!("{label}:delay-not-minimum"), rank, || (format!("delay() = {} but smallest component delay is {}", m.delay(), want_delay), desc()));
     }
-    let want_dur = leaves.iter().map(|s| s.duration).fold(0.0f32, f32::max);
+    let want_dur = leaves.iter().map(|s| s.duration).fold(f32::NEG_INFINITY, f32::max); // leaves is never empty; totals may be negative
     if m.duration().to_bits() != want_dur.to_bits() {
         sink.add(&format!("{label}:duration-not-maximum"), rank, || (format!("duration() = {} but largest component duration is {}", m.duration(), want_dur), desc()));
     }
@@ -261,7 +264,7 @@ pub fn run(run: Run) -> ! {
                     acc.sink.add("metadata:delay-not-minimum", rank, || (format!("delay() = {} but smallest component delay is {}", merged.delay(), want_delay), desc()));
                 }
                 let any_inf = list.iter().any(|&c| pool[c].timing.rep == Rep::Infinite);
-                let want_total = list.iter().filter_map(|&c| pool[c].timing.total()).fold(0.0f64, f64::max);
+                let want_total = list.iter().filter_map(|&c| pool[c].timing.total()).fold(f64::NEG_INFINITY, f64::max);
                 let got_d = std::panic::catch_unwind(std::panic::AssertUnwindSafe(|| merged.duration()));
                 match got_d {
                     Err(_) => acc.sink.add("metadata:duration-panics", rank, || ("duration() panicked".into(), desc())),
@@ -385,7 +388,7 @@ pub fn run(run: Run) -> ! {
     cov.insert("traces_validated_against_impl".into(), json!(acc.evals));
     cov.insert("evaluations".into(), json!(acc.evals));
     cov.insert("distinct_nontrivial".into(), json!(acc.lists - 1));
-    cov.insert("rule".into(), json!(format!("ALL lists of length 0..={maxlen} over a pool of {np} component timelines (property sets {{a}},{{k}},{{a,k}},{{}}; delays 0..1; cycles 1/2,1,2,4; repeat None/Times 0,1,2,3/Infinite/Times(u32::MAX, metadata only); reverse on/off); oracle: merged.update == components applied in order (bit-equal; fresh and dirty targets; union of the components' time grids), same after start_with, all orders agree when property sets are disjoint ({} permuted lists), delay=min, duration=max (inf if any), repeat=largest in None<Times n<Infinite, cycle_duration=Some iff all equal, MergedTimeline::from(t) == t; plus a metadata family of {} lists over 270 stub components (cycle undefined/1/2/1+1ulp/1e-8/5e-8 x delay 0/0.5/2 x duration 1/3/inf x repeat None/Times 0/Times 3/Times(u32::MAX)/Infinite): flat lists, nested merged timelines [[a,b],[c]], [[a],[b,c]] and WIDE lists (5..1025 components: a background stub with one other stub at the front, middle or back) with the same oracle; non-trivial = non-empty lists", acc.disjoint_orders, stub_lists)));
+    cov.insert("rule".into(), json!(format!("ALL lists of length 0..={maxlen} over a pool of {np} component timelines (property sets {{a}},{{k}},{{a,k}},{{}}; delays 0..1; cycles 1/2,1,2,4; repeat None/Times 0,1,2,3/Infinite/Times(u32::MAX, metadata only); reverse on/off); oracle: merged.update == components applied in order (bit-equal; fresh and dirty targets; union of the components' time grids), same after start_with, all orders agree when property sets are disjoint ({} permuted lists), delay=min, duration=max (inf if any), repeat=largest in None<Times n<Infinite, cycle_duration=Some iff all equal, MergedTimeline::from(t) == t; plus a metadata family of {} lists over 600 stub components (cycle undefined/1/2/1+1ulp/1e-8/5e-8 x delay 0/0.5/2/-8 x duration 1/3/inf/-6/-2 x repeat None/Times 0/Times 3/Times(u32::MAX)/Infinite): flat lists, nested merged timelines [[a,b],[c]], [[a],[b,c]] and WIDE lists (5..1025 components: a background stub with one other stub at the front, middle or back) with the same oracle; non-trivial = non-empty lists", acc.disjoint_orders, stub_lists)));
     cov.insert("exhaustive".into(), json!(true));
     cov.insert("metadata_checks".into(), json!(acc.meta_checks));
     cov.insert("distinct_observed_outcomes_capped".into(), json!(acc.outcomes.len()));
